@@ -32,6 +32,42 @@ def check_case(drv, r, stats, asis=ASIS, spec=SPEC):
     return fails
 
 
+def check_aggregator(ds, cfg, kind, f, labs, Xd, Xd_dev, stats):
+    """the carver's own `_aggregator` (crosstab / target values per base label) against the table the harness hands to the model
+    (`carvecase.rows_for`, a plain count over the rows): the hypothesis `Counts` of the row-level theorems of C02"""
+    import fractions
+    from AutoCarver.discretizers import GroupedList
+    fails = []
+    nan = cfg.get("markers", {}).get("str_nan", carvecase.NAN)
+    alll = [l for l in labs if l != nan] + ([nan] if nan in labs else [])
+    try:
+        probe = fitgen.make_carver(ds, cfg)
+    except Exception:
+        return fails
+    for sample, X_, y_ in (("train", Xd, ds["y"]), ("dev", Xd_dev, ds["y_dev"])):
+        if X_ is None or y_ is None:
+            continue
+        col = X_[[f]].copy()
+        col[f] = col[f].astype(object).where(col[f].notna(), nan)
+        try:
+            with warnings.catch_warnings():
+                warnings.simplefilter("ignore")
+                agg = probe._aggregator([f], col, y_, {f: GroupedList(list(alll))})[f]
+            if kind == "binary":
+                impl = [[int(agg.loc[l, c]) if c in agg.columns else 0 for c in (0, 1)] for l in alll]
+                want = carvecase.rows_for(kind, alll, col[f], y_, dev=(sample == "dev"), fill_absent_binary=0)
+            else:
+                impl = [sorted(fractions.Fraction(v) for v in agg.loc[l]) for l in alll]
+                want = [sorted(fractions.Fraction(v) for v in r) for r in carvecase.rows_for(kind, alll, col[f], y_)]
+        except Exception as e:
+            impl, want = f"{type(e).__name__}: {e}"[:200], None
+        stats["aggregations"] = stats.get("aggregations", 0) + 1
+        if impl != want:
+            fails.append({"kind": "correspondence", "what": f"the carver's _aggregator ({sample} sample) does not count the rows the harness counts",
+                          "feature": f, "labels": alll, "impl": str(impl)[:300], "rows": str(want)[:300]})
+    return fails
+
+
 def check_features(drv, ds, cfg, carver, err, suffix, stats, asis=ASIS, spec=SPEC):
     fails = []
     kind = "binary" if ds["target"] == "binary" else "continuous"
@@ -43,6 +79,8 @@ def check_features(drv, ds, cfg, carver, err, suffix, stats, asis=ASIS, spec=SPE
     for f in disc.features:
         stats["features"] += 1
         labs = labels[f]
+        if err is None:
+            fails += check_aggregator(ds, cfg, kind, f, labs, Xd, Xd_dev, stats)
         if err is not None:
             impl = {"outcome": "error", "type": err}
         elif f + suffix not in carver.features:
